@@ -15,6 +15,7 @@ func getLock(locks []sync.RWMutex, key CacheKey) *sync.RWMutex {
 
 func addCacheSize(byteCounter *atomics.Int64, delta int64) {
 	byteCounter.Add(delta)
+	verifYield("counter.betweenHalves")
 	metrics.Global.Cache.BytesCached.Add(delta)
 }
 
